@@ -9,6 +9,8 @@ namespace TbbVerif.C04
 
 theorem upd_ne {α : Type} {f : Nat → α} {k i : Nat} {v : α} (h : i ≠ k) : upd f k v i = f i := upd_other f k v i h
 
+@[simp] theorem orphanMark_apply (oc : Nat → Bool) (l : List Nat) (z : Nat) : orphanMark oc l z = (oc z || l.contains z) := rfl
+
 /-! ### projections of `setPc`, `finishOp`, `finishCancel`, `walkNext` -/
 
 section proj
@@ -31,7 +33,17 @@ variable (s : St) (t : Nat) (pc : Pc) (r : Bool)
 @[simp] theorem setPc_regMx : (setPc s t pc).regMx = s.regMx := rfl
 @[simp] theorem setPc_propMx : (setPc s t pc).propMx = s.propMx := rfl
 @[simp] theorem setPc_srcOf : (setPc s t pc).srcOf = s.srcOf := rfl
-@[simp] theorem setPc_skip : (setPc s t pc).skip = s.skip := rfl
+@[simp] theorem setPc_skipSt : (setPc s t pc).skipSt = s.skipSt := rfl
+@[simp] theorem setPc_clk : (setPc s t pc).clk = s.clk := rfl
+@[simp] theorem setPc_rst : (setPc s t pc).rst = s.rst := rfl
+@[simp] theorem setPc_wst : (setPc s t pc).wst = s.wst := rfl
+@[simp] theorem setPc_pst : (setPc s t pc).pst = s.pst := rfl
+@[simp] theorem setPc_act : (setPc s t pc).act = s.act := rfl
+@[simp] theorem setPc_orph : (setPc s t pc).orph = s.orph := rfl
+@[simp] theorem setPc_wasReg : (setPc s t pc).wasReg = s.wasReg := rfl
+@[simp] theorem setPc_joined : (setPc s t pc).joined = s.joined := rfl
+@[simp] theorem setPc_fresh : (setPc s t pc).fresh = s.fresh := rfl
+@[simp] theorem setPc_oc : (setPc s t pc).oc = s.oc := rfl
 @[simp] theorem setPc_prog : (setPc s t pc).prog = s.prog := rfl
 @[simp] theorem setPc_res : (setPc s t pc).res = s.res := rfl
 @[simp] theorem setPc_misuse : (setPc s t pc).misuse = s.misuse := rfl
@@ -55,7 +67,17 @@ variable (s : St) (t : Nat) (pc : Pc) (r : Bool)
 @[simp] theorem finishCancel_regMx : (finishCancel s t r).regMx = s.regMx := rfl
 @[simp] theorem finishCancel_propMx : (finishCancel s t r).propMx = s.propMx := rfl
 @[simp] theorem finishCancel_srcOf : (finishCancel s t r).srcOf = s.srcOf := rfl
-@[simp] theorem finishCancel_skip : (finishCancel s t r).skip = s.skip := rfl
+@[simp] theorem finishCancel_skipSt : (finishCancel s t r).skipSt = s.skipSt := rfl
+@[simp] theorem finishCancel_clk : (finishCancel s t r).clk = s.clk := rfl
+@[simp] theorem finishCancel_rst : (finishCancel s t r).rst = s.rst := rfl
+@[simp] theorem finishCancel_wst : (finishCancel s t r).wst = s.wst := rfl
+@[simp] theorem finishCancel_pst : (finishCancel s t r).pst = s.pst := rfl
+@[simp] theorem finishCancel_act : (finishCancel s t r).act = s.act := rfl
+@[simp] theorem finishCancel_orph : (finishCancel s t r).orph = s.orph := rfl
+@[simp] theorem finishCancel_wasReg : (finishCancel s t r).wasReg = s.wasReg := rfl
+@[simp] theorem finishCancel_joined : (finishCancel s t r).joined = s.joined := rfl
+@[simp] theorem finishCancel_fresh : (finishCancel s t r).fresh = s.fresh := rfl
+@[simp] theorem finishCancel_oc : (finishCancel s t r).oc = s.oc := rfl
 @[simp] theorem finishCancel_prog : (finishCancel s t r).prog = s.prog := rfl
 @[simp] theorem finishCancel_res : (finishCancel s t r).res = upd s.res t (r :: s.res t) := rfl
 @[simp] theorem finishCancel_misuse : (finishCancel s t r).misuse = s.misuse := rfl
